@@ -280,6 +280,7 @@ func (its *document) PutToObject(key string, value interface{}) (Document, error
 	if err := its.assertLocalOp("PutToObject", TypeJSONObject, false); err != nil {
 		return nil, err
 	}
+	key = types.NormalizeKey(key)
 	value = types.NormalizeValue(value) // the value as every other replica will see it
 	if isNilValue(value) {
 		return nil, errors.DatatypeIllegalParameters.New(its.L(), "null value is not allowed")
@@ -300,7 +301,7 @@ func (its *document) DeleteInObject(key string) (Document, errors.OrdaError) {
 	if err := its.assertLocalOp("DeleteInObject", TypeJSONObject, false); err != nil {
 		return nil, err
 	}
-	op := operations.NewDocRemoveInObjOperation(its.snapshot().getCreateTime(), key)
+	op := operations.NewDocRemoveInObjOperation(its.snapshot().getCreateTime(), types.NormalizeKey(key))
 	removed, err := its.SentenceInTx(its.TxCtx, op, true)
 	if err != nil {
 		return nil, err
@@ -314,7 +315,7 @@ func (its *document) GetFromObject(key string) (Document, errors.OrdaError) {
 		return nil, err
 	}
 	obj := its.snapshot().(*jsonObject)
-	child := obj.getFromMap(key)
+	child := obj.getFromMap(types.NormalizeKey(key))
 	if child == nil || child.(jsonType).isGarbage() {
 		return nil, nil
 	}
